@@ -273,7 +273,7 @@ pub fn spec_c03() -> PropSpec {
         id: "C03",
         profile: pf,
         tape_len: 400,
-        make: || vec![Box::new(ValueOracle::new()), Box::new(Justify::new())],
+        make: || vec![Box::new(super::c06::Aux(Box::new(ValueOracle::new()))), Box::new(Justify::new())],
         nt_rule: "",
     }
 }
